@@ -119,10 +119,10 @@ type FK struct {
 }
 
 type Chk struct {
-	Name        string `json:"name,omitempty"`
-	Expr        string `json:"expr"`
-	Enforced    *bool  `json:"enforced,omitempty"` // mysql
-	NoInherit   bool   `json:"no_inherit,omitempty"`
+	Name      string `json:"name,omitempty"`
+	Expr      string `json:"expr"`
+	Enforced  *bool  `json:"enforced,omitempty"` // mysql
+	NoInherit bool   `json:"no_inherit,omitempty"`
 }
 
 type Tab struct {
@@ -154,13 +154,13 @@ type Sch struct {
 // ---- dialect table ----
 
 type dialect struct {
-	name     string
-	reg      *schemahcl.TypeRegistry
-	format   func(schema.Type) (string, error)
-	parse    func(string) (schema.Type, error)
-	marshal  func(any) ([]byte, error)
-	eval     func([]byte, any) error
-	diff     interface {
+	name    string
+	reg     *schemahcl.TypeRegistry
+	format  func(schema.Type) (string, error)
+	parse   func(string) (schema.Type, error)
+	marshal func(any) ([]byte, error)
+	eval    func([]byte, any) error
+	diff    interface {
 		SchemaDiff(from, to *schema.Schema, opts ...schema.DiffOption) ([]schema.Change, error)
 	}
 	schemaNm string
